@@ -84,6 +84,12 @@ def classify(unit, out, res, diags, stderr):
     base = os.path.basename
     failures = []
     notes = []
+    # labels of the contract clauses attached to each function: an implicit obligation (loop invariant,
+    # index, overflow, callee precondition) failing inside f undermines every labelled clause of f
+    fn_labels = {}
+    for m in out.meta:
+        if m.get("fn") and m.get("label") and m.get("kind") == "contract":
+            fn_labels.setdefault(m["fn"], set()).add(m["label"])
     smt_kinds = (
         "postcondition not satisfied",
         "precondition not satisfied",
@@ -111,12 +117,12 @@ def classify(unit, out, res, diags, stderr):
         if msg.startswith("aborting due to"):
             continue
         if "Resource limit (rlimit) exceeded" in msg or "rlimit" in msg.lower() and "exceeded" in msg.lower():
-            raise Undecided("rlimit", msg + " @ " + span_site(d, out))
+            raise Undecided("rlimit", msg + " @ " + span_site(d, out), fn=span_fn(d, out))
         if not any(msg.startswith(k) or k in msg for k in smt_kinds) and not vr.get("errors", 0) > 0:
             # rustc / mode / lifetime / unsupported-construct errors are tool-level (they abort before
             # the SMT stage, so verification-results.errors == 0); once Verus reports verification
             # errors, every error diagnostic is a failed obligation
-            raise Undecided("unsupported", f"{msg[:300]} @ {span_site(d, out)}")
+            raise Undecided("unsupported", f"{msg[:300]} @ {span_site(d, out)}", fn=span_fn(d, out))
         spans = [s for s in d.get("spans", []) if base(s.get("file_name", "")).endswith(".rs") and "/" not in s.get("file_name", "x/").replace(os.path.dirname(s.get("file_name", "")) + "/", "")]
         label = None
         fn = None
@@ -156,7 +162,9 @@ def classify(unit, out, res, diags, stderr):
         text = ""
         if asm_line and 0 < asm_line <= len(out.lines):
             text = out.lines[asm_line - 1].strip()[:160]
-        failures.append({"label": label, "fn": fn, "message": msg, "site": site, "asm_line": asm_line, "text": text, "clause_src": contract_src})
+        implicit = bool(fn) and label == implicit_label(fn, unit)
+        failures.append({"label": label, "fn": fn, "message": msg, "site": site, "asm_line": asm_line, "text": text, "clause_src": contract_src,
+                         "implicit": implicit, "fn_labels": sorted(fn_labels.get(fn, [])) if fn else []})
     if vr.get("errors", 0) > 0 and not failures:
         raise Undecided("tool-error", "verus reports errors but no diagnostic was parsed: " + stderr[-1500:])
     if not vr.get("success", False) and not failures and vr.get("errors", 0) == 0:
@@ -165,6 +173,15 @@ def classify(unit, out, res, diags, stderr):
         if msgs:
             raise Undecided("unsupported", " | ".join(msgs)[:1500])
     return failures, notes
+
+
+def span_fn(d, out):
+    for s in d.get("spans", []):
+        if s.get("is_primary"):
+            ln = s["line_start"] - 1
+            if 0 <= ln < len(out.meta):
+                return out.meta[ln].get("fn")
+    return None
 
 
 def span_site(d, out):
@@ -254,6 +271,7 @@ def verify_unit(name, seed=None, rlimit=None, items=None, mutate=None, keep=True
         "out": out,
         "unit_cfg": unit,
         "twin_expected": info.get("twin_expected", []),
+        "waived": list(out.waived),
     }
 
 
